@@ -422,3 +422,4 @@ obligation('C02', 'C02-RecoverIbcClient only the sudo address replaces an IBC cl
 # ----------------------------------------------------------------------------------------------------------------- constructors (shared with C18)
 from obligations import shared_ctor as _ctor
 obligation('C02', 'C02-N checked-action constructors: the executable action carries exactly the signer and the action it was built from (and, for Ics20Withdrawal, debits the bridge account only when one is named, otherwise the signer)')(_ctor.constructors_obligation)
+obligation('C02', 'C02-D dispatch (convert_actions / CheckedAction::new_*): every action of a transaction is checked by the constructor of its own kind with the TRANSACTION\'s signer (between C02-S2, which derives that signer, and C02-N, which decides each constructor)')(_ctor.dispatch_obligation)
